@@ -171,8 +171,10 @@ def write_config(root, cfg, names, probe):
         d, pkg, fn = "{{.InterfaceDir}}", src + "_test", "mocks_ext_test.go"
     else:
         d, pkg, fn = "mocks/" + src, "mocks", "mocks.go"
+    if cfg.get("multi"):                    # one output file per interface, all in the same destination package
+        fn = "mock_{{.InterfaceName}}_test.go" if fn.endswith("_test.go") else "mock_{{.InterfaceName}}.go"
     if probe:
-        fn = "zz_probe.txt"
+        fn = "zz_probe_{{.InterfaceName}}.txt" if cfg.get("multi") else "zz_probe.txt"
     lines = []
     if probe:
         lines += ['template: "file://%s"' % PROBE, "require-template-schema-exists: false", "formatter: noop"]
@@ -417,8 +419,86 @@ def setup_module(ctx, cfg, root):
         cfg["opts"]["boilerplate-file"] = str(root / "boilerplate.txt")
 
 
+def probe_view(pd):
+    """What a probe dump says, without the goscope annotations (for comparing two dumps)."""
+    return json.loads(json.dumps({"pkg": pd["pkg"], "srcq": pd["srcq"], "imports": pd["imports"],
+                                  "ifaces": [{"name": i["name"], "struct": i["struct"],
+                                              "tparams": [[t["orig"], t["ty"], t["constraint"], t["decl"]] for t in i["tparams"]],
+                                              "methods": [[m["name"], m["ret"], [[p["name"], p["ty"], p["variadic"]] for p in m["params"]],
+                                                           [[r["name"], r["ty"]] for r in m["results"]]] for m in i["methods"]]}
+                                             for i in pd["ifaces"]]}))
+
+
+def run_multi(ctx, cfg):
+    """One mockery run that writes one file PER INTERFACE into the same destination package.  Per file: probe dump, written
+    source, extracted skeleton; the whole package is type-checked once.  Frame check: the probe dump of every file must be
+    what a run that writes this file alone produces (a file's imports depend only on its own interfaces)."""
+    root = ctx.scratch / ("cfg%04d" % cfg["id"])
+    res = {"id": cfg["id"], "excluded": {}, "stage": "setup", "files": [], "frame_diff": []}
+    setup_module(ctx, cfg, root)
+    names = list(cfg["candidates"])
+    res["names"] = names
+
+    def probes(ns, tag):
+        out_dir, fn, pkg = write_config(root, cfg, ns, probe=True)
+        rc, txt = run_mockery(ctx, root)
+        got = {}
+        for n in ns:
+            pf = out_dir / fn.replace("{{.InterfaceName}}", n)
+            if rc != 0 or not pf.exists():
+                return None, rc, txt
+            got[n] = parse_probe(pf.read_text())
+            pf.unlink()
+        return got, rc, txt
+    pds, rc, txt = (None, 0, "") if cfg.get("no_probe") else probes(names, "all")
+    if pds is None and not cfg.get("no_probe"):
+        res.update(stage="probe-failed", mockery_rc=rc, mockery_log=log_errors(txt))
+        return res
+    if pds:
+        for n in names:
+            resolve_types(ctx, pds[n])
+            solo, rc1, txt1 = probes([n], "solo")
+            if solo is None:
+                res["frame_diff"].append({"interface": n, "what": "the run that writes this file alone failed", "log": log_errors(txt1)})
+            elif probe_view(solo[n]) != probe_view(pds[n]):
+                res["frame_diff"].append({"interface": n, "alone": probe_view(solo[n])["imports"], "with_the_others": probe_view(pds[n])["imports"]})
+    out_dir, fn, pkg = write_config(root, cfg, names, probe=False)
+    rc, txt = run_mockery(ctx, root)
+    res["mockery_rc"] = rc
+    pn = root / "pkgnames.json"
+    pn.write_text(json.dumps(cfg["pkgnames"]))
+    written = {n: out_dir / fn.replace("{{.InterfaceName}}", n) for n in names}
+    res["file"] = str((out_dir / fn).relative_to(root))
+    if rc != 0 or not all(f.exists() for f in written.values()):
+        res.update(stage="mockery-failed", mockery_log=log_errors(txt), errors=["mockery exit %d: %s" % (rc, "; ".join(log_errors(txt))[:600])])
+        return res
+    rc, txt = typecheck(root, cfg, out_dir, fn)
+    res["go_rc"] = rc
+    res["errors"] = go_errors(txt) if rc != 0 else []
+    if rc != 0 and not res["errors"]:
+        res["errors"] = [l for l in txt.split("\n") if l.strip()][:10]
+    res["source"] = ""
+    for n in names:
+        f = written[n]
+        sub = {"id": cfg["id"], "excluded": {}, "stage": "done", "names": [n], "file": str(f.relative_to(root)), "probe": pds.get(n) if pds else None,
+               "source": f.read_text(errors="replace"), "errors": [e for e in res["errors"] if e.startswith(f.name + ":")], "go_rc": rc}
+        p = run([ctx.bins["goscope"], "file", str(out_dir), f.name, str(pn)], timeout=120)
+        if p.returncode == 0:
+            sub["skel"] = json.loads(p.stdout)
+        else:
+            sub["skel_error"] = p.stderr.decode(errors="replace")[-500:]
+        res["files"].append(sub)
+        res["source"] += "// ---- %s\n%s\n" % (f.name, sub["source"][:6000])
+    res["stage"] = "done"
+    if not os.environ.get("C01_KEEP"):
+        shutil.rmtree(root, ignore_errors=True)
+    return res
+
+
 def run_config(ctx, cfg):
     """One configuration end to end.  Returns a result dict (never raises for implementation failures)."""
+    if cfg.get("multi"):
+        return run_multi(ctx, cfg)
     root = ctx.scratch / ("cfg%04d" % cfg["id"])
     res = {"id": cfg["id"], "excluded": {}, "stage": "setup"}
     setup_module(ctx, cfg, root)
@@ -526,6 +606,42 @@ def corpus_module():
     files = {"ext/http/types.go": gen_pkgs.ext_source(e), "src/src.go": f.read_text()}
     return {"files": files, "ifaces": [], "static_names": SHAPES, "ext": [e], "std": gen_pkgs.STD, "mod": gen_pkgs.MOD,
             "src": {"path": gen_pkgs.MOD + "/src", "name": "src"}, "corpus": True}
+
+
+MULTI_SHAPES = [   # (methods; which same-named packages the file mentions, in which order)
+    "Get(l Local, r *nethttp.Request) error",                                   # only net/http
+    "Get(l Local, c h1.Client) error",                                          # only ext/http
+    "Get(l Local, c h1.Client, r *nethttp.Request) h2.Key",                     # ext/http, net/http, ext2/http
+    "Get(l Local, r *nethttp.Request, c h1.Client) error",                      # net/http, ext/http
+    "Get(l Local, k h2.Key) (h1.Key, error)\n\tLock(m xsync.Client) nethttp.Handler",   # ext2/http, ext/http, ext6/sync, net/http
+    "Lock(l Local, m xsync.Key, more ...h2.Box[h1.Key]) error",                  # ext6/sync (next to matryer's own sync), ext2, ext
+]
+
+
+def multi_module(rng, nfiles=6):
+    """Several output FILES in one destination package in one run (filename per interface): same-named packages
+    (net/http, ext/http, ext2/http; ext6/sync next to the sync the matryer template adds) split across the files.  The files
+    are written in some order of the interface names, so the shapes get the names in a seeded permutation."""
+    exts = [e for e in gen_pkgs.EXT if e["alias"] in ("h1", "h2", "xsync")]
+    names = ["FA", "FB", "FC", "FD", "FE", "FF"]
+    perm = list(range(len(MULTI_SHAPES)))
+    rng.shuffle(perm)
+    if nfiles < len(perm):      # quick tier: the two one-package files and the first mixed one always stay
+        keep = [0, 1, 2] + rng.sample([3, 4, 5], nfiles - 3)
+        perm = [k for k in perm if k in keep]
+    names = names[:len(perm)]
+    out = ["package src\n", "import ("]
+    for e in exts:
+        out.append('\t%s "%s"' % (e["alias"], e["path"]))
+    out += ['\tnethttp "net/http"', ")\n", "type Local struct{ X int }\n"]
+    for n, k in zip(names, perm):
+        out.append("type %s interface {\n\t%s\n}\n" % (n, MULTI_SHAPES[k]))
+    files = {"src/src.go": "\n".join(out)}
+    for e in exts:
+        files[e["path"][len(gen_pkgs.MOD) + 1:] + "/types.go"] = gen_pkgs.ext_source(e)
+    return {"files": files, "ifaces": [], "static_names": names, "ext": exts, "std": [s_ for s_ in gen_pkgs.STD if s_["path"] == "net/http"],
+            "mod": gen_pkgs.MOD, "src": {"path": gen_pkgs.MOD + "/src", "name": "src"}, "corpus": True, "multi": True,
+            "order": [MULTI_SHAPES[k].split("#")[0][:40] for k in perm]}
 
 
 def replace_module():
@@ -651,6 +767,18 @@ def make_configs(rng, modules, thorough):
     cfgs = []
     for k, m in enumerate(modules):
         combos = [(t, f, p) for t in TEMPLATES for f in FORMATTERS for p in PLACEMENTS]
+        if m.get("multi"):
+            # both templates x all placements (x two file-name kinds in package), formatters and option sets rotating
+            n = 0
+            for t in TEMPLATES:
+                for p in PLACEMENTS:
+                    for fn_ in (["mocks_test.go", "mocks.go"] if p == "inpkg" and thorough else ["mocks_test.go" if n % 2 else "mocks.go"]):
+                        n += 1
+                        optlist = TESTIFY_OPTS if t == "testify" else MATRYER_OPTS
+                        cfgs.append({"module": m, "files": m["files"], "template": t, "formatter": FORMATTERS[n % 3], "placement": p,
+                                     "opts": dict(optlist[(n + k) % len(optlist)]), "filename": fn_, "src_name": m["src"]["name"],
+                                     "src_path": m["src"]["path"], "pkgnames": pkgnames_of(m), "stream": "main", "multi": True})
+            continue
         if m.get("replace_variants"):
             # replace-type: both templates x all three formatters; variants and placements rotate (thorough: everything).
             # A replaced mock does not implement the interface any more, so matryer runs with skip-ensure.
@@ -884,7 +1012,7 @@ def check(ctx, only=None):
     if only is not None:
         cfgs = only
     else:
-        nmod = int(os.environ.get("C01_MODULES", "60" if thorough else "6"))
+        nmod = int(os.environ.get("C01_MODULES", "60" if thorough else "5"))
         modules = [gen_module(ctx.rng, k) for k in range(nmod)]
         cm = corpus_module()
         if cm:
@@ -892,6 +1020,10 @@ def check(ctx, only=None):
         reserved_code = reserved_from_code(ctx.tree)
         modules.insert(1 if cm else 0, gennames_module(reserved_code))
         modules.insert(1 if cm else 0, replace_module())
+        modules.insert(1 if cm else 0, multi_module(ctx.rng, 6 if thorough else 4))
+        if thorough:
+            modules.insert(1 if cm else 0, multi_module(ctx.rng))
+            modules.insert(1 if cm else 0, multi_module(ctx.rng))
         cfgs = make_configs(ctx.rng, modules, thorough)
         if envflag("C01_GOMOD_SPELLINGS"):           # owned by C09 (DESIGN row 3); off by default
             for k, c in enumerate(cfgs):
@@ -916,16 +1048,30 @@ def check(ctx, only=None):
             "sources": sources_of(c), "generated": (small.get("source") or "")[:20000],
             "case": {"files": sources_of(c), "template": c["template"], "formatter": c["formatter"], "placement": c["placement"], "opts": c["opts"],
                      "filename": c.get("filename"), "src_name": c["src_name"], "src_path": c["src_path"], "pkgnames": c["pkgnames"], "interfaces": names,
-                     "replace": c.get("replace")}})
+                     "replace": c.get("replace"), "multi": c.get("multi", False)}})
         ctx.violation(rp)
 
     # ---------------- translator + correspondence inside Coq
-    done = [(c, r) for c, r in main if r["stage"] == "done" and not r.get("errors") and r.get("skel") and r.get("probe")]
+    expanded = []
+    for c, r in main:
+        if c.get("multi"):
+            expanded += [(dict(c, one_file=sub["names"][0]), sub) for sub in r.get("files", [])]
+        else:
+            expanded.append((c, r))
+    done = [(c, r) for c, r in expanded if r["stage"] == "done" and not r.get("errors") and r.get("skel") and r.get("probe")]
+    frame = [(c, r) for c, r in main if r.get("frame_diff")]
+    if frame and not oracle_fail:
+        rp = ctx.write_replay("frame", {
+            "what": "a file's data model (imports, qualifiers, names) differs between the run that writes it alone and the run that "
+                    "writes it together with other files of the same destination package; all written files type-check",
+            "obligation": "frame property: the imports / skeleton of a file depend only on its own interfaces (Properties/C01.v C01_files_independent is about the model)",
+            "examples": [{"config": describe(c, r), "differences": r["frame_diff"][:4], "sources": sources_of(c)} for c, r in frame[:2]]})
+        ctx.violation(rp, nofail=True)
     terms = [case_term(c, r) for c, r in done]
     mark("oracle_classification")
-    bad, errs = coq_mismatches(ctx, MODS, terms, shard=6) if terms else ([], [])
+    bad, errs = coq_mismatches(ctx, MODS, terms, shard=max(6, -(-len(terms) // JOBS))) if terms else ([], [])
     mark("coq_cases")
-    skel_errors = [(c, r) for c, r in main if r["stage"] == "done" and not r.get("skel")]
+    skel_errors = [(c, r) for c, r in expanded if r["stage"] == "done" and not r.get("skel")]
     # generated names: template/var.go's varName against the model gen_name (Gen/Skeleton.v), and its reserved list
     # (parsed from the source text of this tree) against reserved_names
     gen_pairs, gen_info = [], {}
@@ -1042,6 +1188,9 @@ def check(ctx, only=None):
         hist["stage"][r["stage"]] = hist["stage"].get(r["stage"], 0) + 1
         if c.get("module") is not None and id(c["module"]) not in seen_mod:
             seen_mod.add(id(c["module"])); type_hist(c["module"], hist["types"])
+        if c.get("multi"):
+            hist["multi_file_runs"] = hist.get("multi_file_runs", 0) + 1
+            hist["files_in_multi_file_runs"] = hist.get("files_in_multi_file_runs", 0) + len(r.get("files", []))
         if r.get("probe"):
             n_ifaces += len(r["probe"]["ifaces"]); n_methods += sum(len(i["methods"]) for i in r["probe"]["ifaces"])
             for i in r["probe"]["ifaces"]:
@@ -1082,5 +1231,5 @@ def replay(ctx, path):
     k = d["case"]
     cfg = {"id": 0, "files": k["files"], "template": k["template"], "formatter": k["formatter"], "placement": k["placement"], "opts": dict(k["opts"]),
            "filename": k.get("filename") or "mocks_test.go", "src_name": k["src_name"], "src_path": k["src_path"], "pkgnames": k["pkgnames"],
-           "stream": "main", "candidates": list(k["interfaces"] or []), "outside": {}, "no_probe": True, "replace": k.get("replace")}
+           "stream": "main", "candidates": list(k["interfaces"] or []), "outside": {}, "no_probe": True, "replace": k.get("replace"), "multi": k.get("multi", False)}
     check(ctx, only=[cfg])
